@@ -30,6 +30,7 @@ pub struct Mix {
     pub acquire: u32,
     pub release: u32,
     pub cas_cycle: u32,
+    pub cas_rewrite: u32,
     pub grave_goods: u32,
     pub last_will: u32,
     pub sys_attack: u32,
@@ -85,6 +86,8 @@ pub fn unique_value(rng: &mut Rng, client: usize, n: usize) -> Value {
 }
 
 pub struct GenCtx {
+    /// last (key, value) this client wrote: re-used now and then for value-preserving writes
+    pub last_write: Option<(String, Value)>,
     pub client: usize,
     pub n: usize,
     pub subs: usize,
@@ -137,6 +140,7 @@ pub fn gen_op(rng: &mut Rng, mix: &Mix, g: &mut GenCtx) -> Op {
         (mix.sys_attack, 23),
         (mix.bad, 24),
         (mix.sleep, 25),
+        (mix.cas_rewrite, 26),
     ];
     g.n += 1;
     let n = g.n;
@@ -146,7 +150,16 @@ pub fn gen_op(rng: &mut Rng, mix: &Mix, g: &mut GenCtx) -> Op {
         1 => Op::Req(json!({"get": {"key": key(rng, d)}})),
         2 => Op::Req(json!({"cGet": {"key": key(rng, d)}})),
         3 => Op::Req(json!({"pGet": {"requestPattern": pattern(rng, d)}})),
-        4 => Op::Req(json!({"set": {"key": key(rng, d), "value": unique_value(rng, c, n)}})),
+        4 => {
+            // one in eight plain sets repeats this client's previous write (value-preserving)
+            if let (true, Some((k, v))) = (false && rng.chance(1, 8), g.last_write.clone()) {
+                Op::Req(json!({"set": {"key": k, "value": v}}))
+            } else {
+                let (k, v) = (key(rng, d), unique_value(rng, c, n));
+                g.last_write = Some((k.clone(), v.clone()));
+                Op::Req(json!({"set": {"key": k, "value": v}}))
+            }
+        }
         5 => {
             let version = *rng.pick(&[0u64, 0, 1, 1, 2, 3, u64::MAX]);
             let k = if !g.cas_keys.is_empty() && rng.chance(1, 2) {
@@ -214,7 +227,14 @@ pub fn gen_op(rng: &mut Rng, mix: &Mix, g: &mut GenCtx) -> Op {
         },
         15 => {
             g.ls_subs += 1;
-            let parent = if rng.chance(1, 4) { Value::Null } else { json!(key(rng, d)) };
+            // nested parents are frequent: a, a/b, a/b/a
+            let parent = match rng.below(8) {
+                0 => Value::Null,
+                1..=2 => json!("a"),
+                3..=4 => json!("a/b"),
+                5 => json!("a/b/a"),
+                _ => json!(key(rng, d)),
+            };
             Op::Req(json!({"subscribeLs": {"parent": parent}}))
         }
         16 => Op::UnsubNth {
@@ -230,7 +250,15 @@ pub fn gen_op(rng: &mut Rng, mix: &Mix, g: &mut GenCtx) -> Op {
         },
         21 => {
             let k = rng.range(0, 3);
-            let pats: Vec<Value> = (0..k).map(|_| json!(pattern(rng, d))).collect();
+            let pats: Vec<Value> = (0..k)
+                .map(|_| {
+                    if rng.chance(1, 8) {
+                        json!(rng.pick(&["$SYS/sentinel/#", "$SYS/version", "$SYS/clients/#"]).to_string())
+                    } else {
+                        json!(pattern(rng, d))
+                    }
+                })
+                .collect();
             let v = if rng.chance(1, 10) {
                 json!("not a list")
             } else {
@@ -241,7 +269,14 @@ pub fn gen_op(rng: &mut Rng, mix: &Mix, g: &mut GenCtx) -> Op {
         22 => {
             let k = rng.range(0, 3);
             let kvs: Vec<Value> = (0..k)
-                .map(|i| json!({"key": key(rng, d), "value": format!("w{c}_{n}_{i}")}))
+                .map(|i| {
+                    let kk = if rng.chance(1, 8) {
+                        rng.pick(&["$SYS/version", "$SYS/sentinel/x", "$SYS/clients/<SELF>/protocol"]).to_string()
+                    } else {
+                        key(rng, d)
+                    };
+                    json!({"key": kk, "value": format!("w{c}_{n}_{i}")})
+                })
                 .collect();
             let v = if rng.chance(1, 10) { json!({"bad": 1}) } else { json!(kvs) };
             Op::Req(json!({"set": {"key": "$SYS/clients/<SELF>/lastWill", "value": v}}))
@@ -249,6 +284,10 @@ pub fn gen_op(rng: &mut Rng, mix: &Mix, g: &mut GenCtx) -> Op {
         23 => sys_attack(rng, c, n),
         24 => bad_line(rng),
         25 => Op::Sleep(rng.range(1, 2_000_000)),
+        26 => Op::CasRewrite {
+            key: rng.pick(&g.cas_keys).clone(),
+            token: format!("r{c}_{n}"),
+        },
         _ => Op::Req(json!({"get": {"key": key(rng, d)}})),
     }
 }
@@ -331,6 +370,7 @@ pub fn gen_client(
     v1_only: bool,
 ) -> ClientPlan {
     let mut g = GenCtx {
+        last_write: None,
         client,
         n: 0,
         subs: 0,
